@@ -121,16 +121,109 @@ static void parse_addr(char *s, struct sockaddr_storage *ss, socklen_t *len)
 
 static unsigned char evbuf[MAXLINE / 2];
 
+/* ---- L lines: the same events fed to the REAL select loop tunnel() through the wrapped select() ----------------
+ * L <same header as H> ; events…   X / T / S as for H lines (S = the select timeout), plus
+ *   B now rnd from dest dgramhex pkthex     datagram and tun packet readable in the same iteration
+ * One select() call consumes one event.  A tun packet offered while the tun device is not in the read set is dropped
+ * (the iteration is then a timeout, or the datagram alone).  Output per iteration as for H lines. */
+int srv_tunnel_loop(void);
+void srv_stop(void);
+
+static char *sloop_save;
+static int sloop_started, sloop_first;
+
+static void sloop_flush(void)
+{
+	if (!sloop_started)
+		return;
+	if (!sloop_first)
+		printf(" ; ");
+	sloop_first = 0;
+	print_outputs();
+	printf(" | ");
+	print_srv_state();
+}
+
+static void prepare_dgram(char **q)
+{
+	unsigned char ip4[16];
+	char *dest;
+	int n;
+	wire_srand(strtoul(tok(q), NULL, 10));
+	parse_addr(tok(q), &inj_from, &inj_fromlen);
+	dest = tok(q);
+	inj_dest_family = 0;
+	if (dest[0] != '-' && unhex(dest, ip4) == 4) {
+		inj_dest_family = 4;
+		memcpy(inj_dest4, ip4, 4);
+	}
+	n = unhex(tok(q), evbuf);
+	inj_set(evbuf, n);
+	inj_residue = 0;
+}
+
+static int sloop_select(int nfds, fd_set *rfds, struct timeval *tv)
+{
+	char *ev, *q, *k;
+	int tun_sel = rfds && FD_ISSET(11, rfds);
+	int ready_tun = 0, ready_dns = 0;
+	(void)nfds; (void)tv;
+	sloop_flush();
+	sloop_started = 1;
+	cap_reset();
+	if (rfds)
+		FD_ZERO(rfds);
+	tun_in_len = 0;
+	inj_len = 0;
+	for (;;) {
+		ev = strtok_r(NULL, ";", &sloop_save);
+		if (!ev) {
+			sloop_started = 0;
+			srv_stop();
+			return 0;
+		}
+		q = ev;
+		k = tok(&q);
+		if (k)
+			break;
+	}
+	verif_now = atol(tok(&q));
+	if (!strcmp(k, "S")) {
+		return 0;
+	} else if (!strcmp(k, "T")) {
+		tun_in_len = unhex(tok(&q), tun_in);
+		ready_tun = tun_sel;
+	} else if (!strcmp(k, "X")) {
+		prepare_dgram(&q);
+		ready_dns = 1;
+	} else if (!strcmp(k, "B")) {
+		prepare_dgram(&q);
+		ready_dns = 1;
+		tun_in_len = unhex(tok(&q), tun_in);
+		ready_tun = tun_sel;
+	} else {
+		printf("BADEVENT");
+		return 0;
+	}
+	if (ready_tun && rfds)
+		FD_SET(11, rfds);
+	if (ready_dns && rfds)
+		FD_SET(10, rfds);
+	return ready_tun + ready_dns;
+}
+
 int handle_line(char *l)
 {
+	int loopmode;
 	char *p = l, *t, *ev, *save;
 	char topd[300], pass[64], myip[32];
 	int n, checkip, netbits, mtu, bindport, first = 1;
 	unsigned char ip4[16];
 
 	t = tok(&p);
-	if (strcmp(t, "H"))
+	if (strcmp(t, "H") && strcmp(t, "L"))
 		return 0;
+	loopmode = !strcmp(t, "L");
 	n = unhex(tok(&p), in); memcpy(topd, in, n); topd[n] = 0;
 	n = unhex(tok(&p), in); if (n > 32) n = 32; memset(pass, 0, sizeof(pass)); memcpy(pass, in, n);
 	checkip = atoi(tok(&p));
@@ -147,6 +240,18 @@ int handle_line(char *l)
 	srv_set_bind_port(bindport);
 	cli_init("x.y", 0, 0, 255, 10, 'T', 0, 1);
 	cli_set_edns0(1);
+	if (loopmode) {
+		sloop_save = p;
+		sloop_started = 0;
+		sloop_first = 1;
+		wire_select_hook = sloop_select;
+		srv_tunnel_loop();
+		wire_select_hook = NULL;
+		sloop_flush();
+		sloop_started = 0;
+		putchar('\n');
+		return 1;
+	}
 
 	for (ev = strtok_r(p, ";", &save); ev; ev = strtok_r(NULL, ";", &save)) {
 		char *q = ev, *k = tok(&q);
